@@ -168,11 +168,11 @@ class ContractableBOSS(BaseClassifier):
         win_inc = int((max_window - self.min_window) / max_window_searches)
         if win_inc < 1:
             win_inc = 1
-        if self.min_window > max_window + 1:
+        if self.min_window > max_window:
             raise ValueError(
                 f"Error in ContractableBOSS, min_window ="
                 f"{self.min_window} is bigger"
-                f" than max_window ={self.max_window},"
+                f" than max_window ={max_window},"
                 f" series length is {self.series_length}"
                 f" try set min_window to be smaller than series length in "
                 f"the constructor, but the classifier may not work at "
@@ -215,6 +215,9 @@ class ContractableBOSS(BaseClassifier):
                 boss, y_subsample, subsample_size, lowest_acc
             )
             weight = math.pow(boss.accuracy, 4)
+            if weight == 0:
+                # keep a vanishing vote so that the ensemble weights never sum to 0
+                weight = 0.000000001
 
             if num_classifiers < self.max_ensemble_size:
                 if boss.accuracy < lowest_acc:
